@@ -60,10 +60,14 @@ pub fn gen(seed: u64, thorough: bool, only: Option<u64>, out: &mut Out) {
     let mut r = Prng::for_case(seed, "C16", g);
     let t = if g < ts.len() as u64 { ts[g as usize] } else { *r.pick(ts) };
     let t = if !thorough && t > 8 { 8 } else { t };
+    // thresholds above 2^8 only in the fixed leading groups (a 256-share recovery costs the model ~40 s)
+    let t = if t >= 256 && g >= ts.len() as u64 { 64 } else { t };
     let ml = if thorough && r.below(40) == 0 { 100_000 } else { *r.pick(LENS) };
     let rl = *r.pick(LENS);
     let m = r.blob(ml);
     let coins = r.blob(rl);
+    // group 4 (threshold 5, history block below) is the fixed witness of the known finding C16/short-sharing
+    let (m, coins) = if g == 4 { (vec![], vec![]) } else { (m, coins) };
     let custom = r.below(6) == 0;
     let desc = if custom {
       let ll = 1 + r.below(12) as usize;
@@ -183,7 +187,14 @@ pub fn gen(seed: u64, thorough: bool, only: Option<u64>, out: &mut Out) {
             out.case(
               format!("adss.recover {}", mix.iter().map(|b| hex(b)).collect::<Vec<_>>().join(" ")),
               obs.clone(),
-              if obs == "err" { Ok(()) } else { Err("shares made under two different transcripts combined".to_string()) },
+              if obs == "err" {
+                Ok(())
+              } else if m.len() + coins.len() < 16 {
+                // known finding short-sharing (see C05): fewer than 16 bytes of plaintext bind the sharing key
+                Err(format!("short-sharing: message and coins together have {} bytes (< 16), so the sharing key is bound only through them and points of a sharing under another transcript are accepted when the wrong key decrypts them alike (always for 0 bytes)", m.len() + coins.len()))
+              } else {
+                Err("shares made under two different transcripts combined".to_string())
+              },
             );
           }
         }
